@@ -747,6 +747,132 @@ def gen_pipeline_spec(rng: random.Random) -> dict:
     return {"steps": steps, "externals": []}
 
 
+HANDLER_LAYOUT_SHAPES = ["valid", "valid", "random", "random", "scoped_lists_wildcard", "scoped_lists_wildcard", "scoped_lists_scoped",
+                         "lists_itself", "mutual", "two_wildcards", "overlap", "unknown_step", "chain"]
+
+
+def handler_layout(rng: random.Random, ords: list[str], hn: list[str], shape: str) -> dict[str, list[str] | None]:
+    """`for_steps` per handler name for one of the adversarial layout shapes (ordinary steps `ords`, handler names `hn`):
+    what a user can WRITE, not what validation accepts -- scoped handlers that list the wildcard handler, another scoped
+    handler, themselves, each other; two wildcards; overlapping scopes; unknown names; chains h1 -> h2 -> h3."""
+    fs: dict[str, list[str] | None] = {}
+
+    def some_ords(k_max: int = 2, pool: list[str] | None = None) -> list[str]:
+        pool = list(ords if pool is None else pool)
+        return sorted(rng.sample(pool, rng.randint(0, min(k_max, len(pool)))))
+
+    def valid_rest(names: list[str], allow_wild: bool, free: list[str]) -> None:
+        free = list(free)
+        for h in names:
+            if allow_wild and rng.random() < 0.4:
+                fs[h] = None
+                allow_wild = False
+            else:
+                take = some_ords(2, free)
+                free = [x for x in free if x not in take]
+                fs[h] = take
+
+    if shape == "valid" or len(hn) < 2 and shape in ("scoped_lists_wildcard", "scoped_lists_scoped", "mutual", "two_wildcards", "overlap", "chain"):
+        valid_rest(hn, True, ords)
+    elif shape == "random":
+        for h in hn:
+            if rng.random() < 0.3:
+                fs[h] = None
+            else:
+                pool = ords + hn + (["s25"] if rng.random() < 0.15 else [])
+                fs[h] = rng.sample(pool, rng.randint(0, min(3, len(pool))))
+    elif shape == "scoped_lists_wildcard":
+        w, g = hn[0], hn[1]
+        fs[w] = None
+        extra = some_ords(2)
+        fs[g] = [w] + extra if rng.random() < 0.5 else extra + [w]
+        valid_rest(hn[2:], False, [x for x in ords if x not in extra])
+    elif shape == "scoped_lists_scoped":
+        a, b = hn[0], hn[1]
+        fs[a] = some_ords(2) or ords[:1]
+        rest = [x for x in ords if x not in fs[a]]
+        extra = some_ords(1, rest)
+        fs[b] = [a] + extra
+        valid_rest(hn[2:], True, [x for x in rest if x not in extra])
+    elif shape == "lists_itself":
+        a = hn[0]
+        extra = some_ords(2)
+        fs[a] = extra + [a]
+        valid_rest(hn[1:], True, [x for x in ords if x not in extra])
+    elif shape == "mutual":
+        a, b = hn[0], hn[1]
+        ea = some_ords(1)
+        fs[a] = ea + [b]
+        fs[b] = [a] + some_ords(1, [x for x in ords if x not in ea])
+        valid_rest(hn[2:], True, [x for x in ords if x not in ea and x not in (fs[b] or [])])
+    elif shape == "two_wildcards":
+        fs[hn[0]] = None
+        fs[hn[1]] = None
+        valid_rest(hn[2:], False, ords)
+    elif shape == "overlap":
+        t = rng.choice(ords)
+        fs[hn[0]] = sorted({t, *some_ords(1)})
+        fs[hn[1]] = sorted({t, *some_ords(1)})
+        valid_rest(hn[2:], True, [x for x in ords if x not in fs[hn[0]] and x not in fs[hn[1]]])  # type: ignore[operator]
+    elif shape == "unknown_step":
+        fs[hn[0]] = some_ords(1) + ["s25"]
+        valid_rest(hn[1:], True, [x for x in ords if x not in fs[hn[0]]])  # type: ignore[operator]
+    elif shape == "chain":
+        # h0 owns ordinary steps (scoped or wildcard), h1 lists h0, h2 lists h1
+        fs[hn[0]] = None if rng.random() < 0.5 else (some_ords(2) or ords[:1])
+        for prev, h in zip(hn, hn[1:]):
+            fs[h] = [prev]
+    else:
+        raise ValueError(shape)
+    return fs
+
+
+def gen_handler_layout_spec(rng: random.Random, shape: str | None = None) -> dict:
+    """family "handler_layout": the LAYOUT of the @catch_error handlers is the input.  One to three ordinary steps that
+    fail (at once or after retries) next to one to three handlers laid out by `handler_layout`; the handlers mostly raise
+    themselves, so that -- wherever a layout is accepted -- failures of HANDLER steps occur at run time and have to fail
+    the run instead of reaching a handler.  Layouts that break a documented rule are expected to be rejected by
+    validation (outcome "invalid"); the monitors judge table and run from the layout alone."""
+    shape = shape or rng.choice(HANDLER_LAYOUT_SHAPES)
+    n_ord = rng.randint(1, 3)
+    tys = rng.sample(PLAIN[:4], n_ord)
+    onames = [f"s{i:02d}" for i in rng.sample(range(1, 12), n_ord)]
+    nh = rng.choice([1, 2, 2, 2, 3, 3])
+    if shape in ("scoped_lists_wildcard", "scoped_lists_scoped", "mutual", "two_wildcards", "overlap"):
+        nh = max(nh, 2)
+    if shape == "chain":
+        nh = rng.choice([2, 3])
+    hn = [f"s{i:02d}" for i in rng.sample(range(12, 20), nh)]
+    ords = ["s00"] + onames
+    fs = handler_layout(rng, ords, hn, shape)
+    steps: list[dict[str, Any]] = []
+    sends = [["send", t, None, rng.choice([None, 1, 2])] for t in tys for _ in range(rng.choice([1, 1, 2]))]
+    rng.shuffle(sends)
+    start_end = rng.choice([["fail_always", rng.randint(1, 9)], ["fail_always", rng.randint(1, 9)], ["ret", "none"]])
+    start_script = sends + ([["gate"]] if rng.random() < 0.3 else []) + ([start_end, ["ret", "none"]] if start_end[0] != "ret" else [start_end])
+    steps.append({"name": "s00", "accepts": [0], "nw": 1, "retry": None, "script": start_script})
+    for nm, t in zip(onames, tys):
+        pol = rng.choice([None, None, {"kind": "attempts", "n": 2, "wait": 0}, {"kind": "attempts", "n": 2, "wait": 1}])
+        body = rng.choice([["fail_always", rng.randint(1, 9)], ["fail_always", rng.randint(1, 9)], ["fail_always", rng.randint(1, 9)],
+                           ["fail_on_k", 2, rng.randint(1, 9)]])
+        steps.append({"name": nm, "accepts": [t], "nw": rng.randint(1, 2), "retry": pol,
+                      "script": ([["gate"]] if rng.random() < 0.3 else []) + [body, ["ret", "none"]]})
+    for h in hn:
+        r = rng.random()
+        if r < 0.6:
+            hs: list = [["fail_always", rng.randint(1, 9)]]
+        elif r < 0.75:
+            hs = [["ret", "stop"]]
+        elif r < 0.9:
+            hs = [["ret", str(rng.choice(tys))]]  # back into a failing step: the lineage re-enters its handler (budget)
+        else:
+            hs = [["ret", "none"]]
+        steps.append({"name": h, "accepts": [4], "role": "handler", "for_steps": fs[h], "max_rec": rng.choice([1, 1, 2]),
+                      "script": ([["gate"]] if rng.random() < 0.2 else []) + hs})
+    rng.shuffle(steps)
+    return {"steps": steps, "externals": [], "layout_shape": shape}
+
+
 _general = gen_spec
 
 
@@ -762,6 +888,8 @@ def gen_spec(rng: random.Random, **kw: Any) -> dict:  # type: ignore[no-redef]
         return gen_wait_multi_spec(rng)
     if kw.get("family") == "handler_send":
         return gen_handler_send_spec(rng)
+    if kw.get("family") == "handler_layout":
+        return gen_handler_layout_spec(rng, shape=kw.get("shape"))
     if kw.get("family") == "general" or r < 0.55:
         kw.pop("family", None)
         kw.pop("raise_incomplete", None)
